@@ -136,6 +136,7 @@ type realRepo struct {
 	root, home, log, plz string
 	cache                string // "" = cache disabled
 	compress             bool
+	edits                int
 }
 
 const catBody = `if [ -d $f ]; then (cd $f && find . -type f | LC_ALL=C sort | while read g; do echo $g; cat $g; done); else cat $f; fi`
@@ -159,26 +160,33 @@ func (r *realRepo) cmdFor(t *target) string {
 	panic("kind " + t.Kind)
 }
 
-func (r *realRepo) write(s *repoState) error {
-	// remove everything but plz-out, then rewrite (keeps mtimes irrelevant: plz hashes contents)
-	ents, _ := os.ReadDir(r.root)
-	for _, e := range ents {
-		if e.Name() != "plz-out" {
-			os.RemoveAll(filepath.Join(r.root, e.Name()))
-		}
+// putFile brings one file to the wanted content the way a user would: untouched when equal, otherwise edited IN PLACE
+// (same inode — what `echo >> f` or most editors' "write in place" do) or, for every third change, replaced by rename.
+func (r *realRepo) putFile(path string, content []byte) error {
+	if old, err := os.ReadFile(path); err == nil && string(old) == string(content) {
+		return nil
 	}
+	os.MkdirAll(filepath.Dir(path), 0o755)
+	r.edits++
+	if r.edits%3 == 0 {
+		tmp := path + ".tmp~"
+		if err := os.WriteFile(tmp, content, 0o644); err != nil {
+			return err
+		}
+		return os.Rename(tmp, path)
+	}
+	return os.WriteFile(path, content, 0o644) // truncates and rewrites the existing inode
+}
+
+func (r *realRepo) write(s *repoState) error {
+	want := map[string][]byte{}
 	cfg := "[cache]\ndir = " + r.cache + "\n"
 	if r.compress {
 		cfg += "dircompress = true\n"
 	}
-	if err := os.WriteFile(filepath.Join(r.root, ".plzconfig"), []byte(cfg), 0o644); err != nil {
-		return err
-	}
+	want[".plzconfig"] = []byte(cfg)
 	for p, c := range s.files {
-		os.MkdirAll(filepath.Join(r.root, filepath.Dir(p)), 0o755)
-		if err := os.WriteFile(filepath.Join(r.root, p), []byte(c), 0o644); err != nil {
-			return err
-		}
+		want[p] = []byte(c)
 	}
 	byPkg := map[string][]string{}
 	for _, l := range s.order {
@@ -205,8 +213,31 @@ func (r *realRepo) write(s *repoState) error {
 					nameOf(l), strings.Join(srcs, ", "), t.Out, r.cmdFor(t))
 			}
 		}
-		os.MkdirAll(filepath.Join(r.root, pkg), 0o755)
-		if err := os.WriteFile(filepath.Join(r.root, pkg, "BUILD"), []byte(b.String()), 0o644); err != nil {
+		want[filepath.Join(pkg, "BUILD")] = []byte(b.String())
+	}
+	// remove what is no longer part of the tree (never plz-out)
+	filepath.Walk(r.root, func(p string, info os.FileInfo, err error) error {
+		if err != nil || p == r.root {
+			return nil
+		}
+		rel, _ := filepath.Rel(r.root, p)
+		if rel == "plz-out" {
+			return filepath.SkipDir
+		}
+		if !info.IsDir() {
+			if _, ok := want[rel]; !ok {
+				os.Remove(p)
+			}
+		}
+		return nil
+	})
+	keys := make([]string, 0, len(want))
+	for k := range want {
+		keys = append(keys, k)
+	}
+	sort.Strings(keys)
+	for _, k := range keys {
+		if err := r.putFile(filepath.Join(r.root, k), want[k]); err != nil {
 			return err
 		}
 	}
@@ -417,6 +448,11 @@ func (g *gen) randomDef(label string, avail []string, out string) *target {
 		}
 		av := append([]string{}, avail...)
 		lib.Shuffle(g.r, av)
+		if g.r.Bool() { // filegroups first: their outputs are hard links to sources, a path of its own through the hasher
+			sort.SliceStable(av, func(i, j int) bool {
+				return g.s.targets[av[i]].Kind == "fg" && g.s.targets[av[j]].Kind != "fg"
+			})
+		}
 		nd := g.r.Intn(3)
 		if nd > len(av) {
 			nd = len(av)
@@ -605,6 +641,17 @@ func (g *gen) history(run *lib.Run, steps int) []string {
 			buildOps(req)
 			if fs := filesOf(req); len(fs) > 0 {
 				f := lib.Pick(g.r, fs)
+				// half of the time prefer a file that reaches the build through a filegroup (hard link into plz-out)
+				var viaFg []string
+				for _, l := range g.s.closure(req) {
+					if t := g.s.targets[l]; t.Kind == "fg" && len(t.Srcs) == 1 {
+						viaFg = append(viaFg, pkgOf(l)+"/"+t.Srcs[0])
+					}
+				}
+				if len(viaFg) > 0 && g.r.Bool() {
+					f = lib.Pick(g.r, viaFg)
+					run.Count("template-noop-then-edit-via-filegroup")
+				}
 				g.writeFile(filepath.Dir(f), filepath.Base(f))
 			}
 			buildOps(req)
